@@ -34,6 +34,8 @@ type xferOpts struct {
 	srvTmux    string   // server inside tmux: "" | "normal" | "control"
 	actEdit    func(act map[string]any) // protocol-aware rewrite of the client's ACT (older/odd clients)
 	trigEdit   func(b []byte) []byte    // rewrite of the trigger as it leaves the server
+	srvPaneCols   int   // width of the server's tmux pane (0: 77)
+	relayPaneCols []int // widths of the relays' tmux panes, nearest to the client first (nil: 60, 67, ...; then they do not count for the progress oracle)
 	srvCCFrame bool                     // the server's pane belongs to a tmux in control mode: its output reaches the next hop as %output lines, and what is typed towards it lands in tmux's command channel (recorded in ccTyped), not in its stdin
 	cols       int32
 	uploadVia  int // 0 OneTimeUpload, 1 UploadFiles (drag queue + scripted shell), 2 typed paths
@@ -54,6 +56,7 @@ type transportProfile struct {
 	segPm, coalPm, latPm int
 	latMax               time.Duration
 	bytesPerMs           int
+	serial               bool // bytesPerMs is the capacity of the line (writes queue up), not a per-write delay
 }
 
 func vDrawProfile(tp *verifsim.Tape, timeoutSec int) transportProfile {
@@ -82,6 +85,7 @@ func vDrawProfile(tp *verifsim.Tape, timeoutSec int) transportProfile {
 
 func (p transportProfile) apply(l *verifsim.Link) {
 	l.SegPm, l.CoalescePm, l.LatPm, l.LatMax, l.BytesPerMs = p.segPm, p.coalPm, p.latPm, p.latMax, p.bytesPerMs
+	l.Serial = p.serial
 }
 
 func (p transportProfile) String() string {
@@ -179,6 +183,13 @@ func newXferWorld(rc *runCtx, o *xferOpts) *xferWorld {
 	}
 	x.server = w.NewProc("server")
 	return x
+}
+
+func (x *xferWorld) srvPane() int {
+	if x.o.srvPaneCols > 0 {
+		return x.o.srvPaneCols
+	}
+	return 77
 }
 
 // upLast/downLast are the links attached to the server process.
@@ -284,7 +295,11 @@ func (x *xferWorld) start() {
 		if mode != "" {
 			p.Env["TMUX"] = "/tmp/tmux-0/default,1,0"
 			tty := fmt.Sprintf("/dev/pts/%d", 10+i)
-			execs[p] = x.tmuxExec(mode, 60+7*i, tty)
+			pw := 60 + 7*i
+			if i < len(o.relayPaneCols) {
+				pw = o.relayPaneCols[i]
+			}
+			execs[p] = x.tmuxExec(mode, pw, tty)
 			if mode == "normal" {
 				// the relay writes protocol traffic straight to the tmux client's tty
 				w.Ttys[tty] = &verifsim.SimFile{W: x.down[i]}
@@ -474,7 +489,7 @@ func (x *xferWorld) prepareServer() {
 	if o.srvTmux != "" {
 		sp.Env["TMUX"] = "/tmp/tmux-0/default,2,0"
 		tty := "/dev/pts/9"
-		execs[sp] = x.tmuxExec(o.srvTmux, 77, tty)
+		execs[sp] = x.tmuxExec(o.srvTmux, x.srvPane(), tty)
 		if o.srvTmux == "normal" {
 			w.Ttys[tty] = &verifsim.SimFile{W: x.downLast()}
 		}
@@ -548,6 +563,10 @@ func (x *xferWorld) launchServer() {
 // nextTransfer starts another transfer through the same filter and relays (root goroutine).
 func (x *xferWorld) nextTransfer(o *xferOpts) {
 	o.relays, o.relayTmux, o.tunnel, o.profile, o.cols = x.o.relays, x.o.relayTmux, x.o.tunnel, x.o.profile, x.o.cols
+	o.relayPaneCols = x.o.relayPaneCols
+	if o.srvPaneCols == 0 {
+		o.srvPaneCols = x.o.srvPaneCols
+	}
 	o.simCap = x.o.simCap
 	x.o = o
 	x.transferNo++
@@ -974,17 +993,29 @@ var vProgressPct = regexp.MustCompile(`\d+%`)
 var vProgressTail = regexp.MustCompile(`\d+%( \| [^|]{1,24}){0,3}$`)
 
 // progressOverflow looks at every progress line the client wrote to the terminal from offset `from` on: none
-// may be wider than the narrowest width in force - the server's tmux pane when it sits in one (its width is 77
-// in this world), else the terminal (cols). Returns "" when fine.
+// may be wider than the narrowest width in force - the server's tmux pane when it sits in one (77 columns unless the scenario
+// says otherwise), the panes of relays inside tmux when the scenario gave them widths, else the terminal (cols). Returns "" when fine.
 func (x *xferWorld) progressOverflow(from int, cols int32) string {
 	limit := int(cols)
-	if x.o.srvTmux != "" && limit > 77 {
-		limit = 77
+	if x.o.srvTmux != "" && limit > x.srvPane() {
+		limit = x.srvPane()
+	}
+	for i, pw := range x.o.relayPaneCols {
+		if i < len(x.o.relayTmux) && x.o.relayTmux[i] != "" && limit > pw {
+			limit = pw
+		}
 	}
 	if limit < 5 {
 		return ""
 	}
 	term, _, evs := x.term.Snapshot()
+	lastPct := map[string]int{}
+	single := false
+	if len(x.o.srcPaths) == 1 {
+		if st, err := os.Stat(x.o.srcPaths[0]); err == nil && st.Mode().IsRegular() {
+			single = true
+		}
+	}
 	for _, e := range evs {
 		if e.Off < from || e.Off+e.N > len(term) {
 			continue
@@ -1002,8 +1033,10 @@ func (x *xferWorld) progressOverflow(from int, cols int32) string {
 				text = f[2]
 			}
 			text = vTmuxUnescape(strings.TrimSuffix(text, "\r\n"))
-		} else if !strings.HasPrefix(text, "\r") && !strings.HasPrefix(text, "\x1b[") {
-			continue // not a progress redraw (some other output that happens to contain a percentage)
+		} else if !strings.HasPrefix(text, "\r") && !strings.HasPrefix(text, "\x1b[") && !strings.Contains(text, "[\x1b[36m") {
+			// not a progress redraw (some other output that happens to contain a percentage); the very first
+			// drawing of a bar has no cursor movement in front, it is known by its bar
+			continue
 		}
 		if strings.ContainsAny(text, "\n") {
 			continue // a progress redraw is one line
@@ -1015,9 +1048,36 @@ func (x *xferWorld) progressOverflow(from int, cols int32) string {
 		if w := runewidth.StringWidth(vis); w > limit {
 			return fmt.Sprintf("a progress line of display width %d was written while the narrowest width on the path was %d (terminal %d, server tmux %q): %q", w, limit, cols, x.o.srvTmux, vClip(vis, 140))
 		}
+		// the percentage never decreases within a file: judged where the line says which file it is about (its
+		// "(k/n)" index), or when the transfer carries one single file
+		loc := vProgressTail.FindStringIndex(vis)
+		pct := -1
+		fmt.Sscanf(vis[loc[0]:], "%d%%", &pct)
+		key := ""
+		if m := vProgressIdx.FindStringSubmatch(strings.TrimLeft(vis, "\r")); m != nil {
+			key = m[1]
+		} else if single {
+			key = "single"
+		}
+		x.rc.res.Scenario["progress_lines"] = vInt(x.rc.res.Scenario["progress_lines"]) + 1
+		if key != "" && pct >= 0 {
+			x.rc.res.Scenario["progress_lines_keyed"] = vInt(x.rc.res.Scenario["progress_lines_keyed"]) + 1
+			if seq, _ := x.rc.res.Scenario["progress_seq"].(string); len(seq) < 400 {
+				x.rc.res.Scenario["progress_seq"] = seq + fmt.Sprintf(" %s:%d@%d", key, pct, e.T.Milliseconds())
+			}
+			if last, ok := lastPct[key]; ok && pct < last {
+				return fmt.Sprintf("the percentage went down from %d%% to %d%% within one file (%s): %q", last, pct, key, vClip(vis, 140))
+			}
+			lastPct[key] = pct
+		}
+		if pct > 100 {
+			return fmt.Sprintf("a percentage above 100 was shown: %q", vClip(vis, 140))
+		}
 	}
 	return ""
 }
+
+var vProgressIdx = regexp.MustCompile(`^(\(\d+/\d+\)) `)
 
 // dumpWire appends the tail of every link's recorded stream to the result detail (debugging aid).
 func (x *xferWorld) dumpWire(rc *runCtx, n int) {
@@ -1072,4 +1132,11 @@ func (x *xferWorld) firerPlaces() int {
 		return 0
 	}
 	return x.firers[0].count
+}
+
+func vInt(v any) int {
+	if n, ok := v.(int); ok {
+		return n
+	}
+	return 0
 }
